@@ -72,7 +72,7 @@ Lemma vi_insert a t k s i ch s' :
   0 < t -> DInv s -> VI a t s -> d_insert_core t k s = (i, ch, s') -> VI a t s'.
 Proof.
   intros PT T [M V] H.
-  destruct (d_insert_core_spec t k s i ch s' T H) as [T' [_ [L' [_ [SI [_ [_ [OTH AT]]]]]]]].
+  destruct (d_insert_core_spec t k s i ch s' T H) as [T' [_ [L' [_ [SI [_ [_ [OTH [AT _]]]]]]]]].
   split; [lia|].
   intros j k' x Q NF. destruct (Nat.eq_dec j i) as [E|E].
   - subst j. rewrite SI in Q. inversion Q; subst x k'.
@@ -115,6 +115,59 @@ Proof.
   - destruct (OTH j E) as [O1 [O2 [O3 O4]]]. rewrite O1 in Q. rewrite O2, O3, O4.
     destruct (V j k' x Q NF) as [[B1 [B2 B3]]|B]; [left|right; exact B].
     split; [exact B1|]. split; [apply LM; exact B2|exact B3].
+Qed.
+
+(* ------------------------------------------------------------------ no stale modification marks *)
+(* after the roll, a modified mark sits only on a slot whose child carries THIS cycle's stamp *)
+Definition MJ (t : Z) (s : tsd) : Prop := forall i, dm s i = true -> c_lmt (child_at s i) = t.
+
+Lemma mj_transfer t s s' :
+  (forall i, dm s' i = dm s i /\ child_at s' i = child_at s i) -> MJ t s -> MJ t s'.
+Proof. intros PW J i Q. destruct (PW i) as [P1 P2]. rewrite P1 in Q. rewrite P2. apply J. exact Q. Qed.
+
+Lemma mj_mark t s : MJ t s -> MJ t (d_mark t s).
+Proof. apply mj_transfer. auto. Qed.
+
+Lemma mj_roll t s : DInv s -> d_dt s < t -> MJ t (d_prepare t s).
+Proof.
+  intros T H i Q. destruct (d_prepare_roll t s T H) as [_ [_ [_ [B1 _]]]].
+  destruct (B1 i) as [_ [_ [M _]]]. congruence.
+Qed.
+
+Lemma mj_insert t k s i ch s' : DInv s -> MJ t s -> d_insert_core t k s = (i, ch, s') -> MJ t s'.
+Proof.
+  intros T J H.
+  destruct (d_insert_core_spec t k s i ch s' T H) as [_ [_ [_ [_ [_ [_ [_ [OTH [AT MO]]]]]]]]].
+  intros j Q. destruct (Nat.eq_dec j i) as [E|E].
+  - subst j. destruct (MO Q) as [M|M]; [|exact M].
+    pose proof (di_bits s T i) as B.
+    destruct AT as [[_ [_ [_ [_ A3]]]]|[[_ [PD _]]|[_ [FR _]]]].
+    + rewrite A3. apply J. exact M.
+    + rewrite PD in B. cbn in B. destruct B as [_ [B _]]. congruence.
+    + rewrite FR in B. cbn in B. destruct B as [_ [_ [B _]]]. congruence.
+  - destruct (OTH j E) as [_ [O2 [_ O4]]]. rewrite O2 in Q. rewrite O4. apply J. exact Q.
+Qed.
+
+Lemma mj_remove t k s ch s' : DInv s -> MJ t s -> d_remove_core t k s = (ch, s') -> MJ t s'.
+Proof.
+  intros T J H.
+  destruct (d_remove_core_spec t k s ch s' T H) as [T' [_ [_ [_ [[_ E]|[_ [i [LV [PD [CH OTH]]]]]]]]]].
+  - subst s'. exact J.
+  - intros j Q. rewrite CH. destruct (Nat.eq_dec j i) as [E|E].
+    + subst j. pose proof (di_bits s' T' i) as B. rewrite PD in B. cbn in B. destruct B as [_ [B _]]. congruence.
+    + destruct (OTH j E) as [_ [O2 _]]. rewrite O2 in Q. apply J. exact Q.
+Qed.
+
+Lemma mj_child_write t i v k s :
+  0 < t -> DInv s -> dst s i = mkSlot SLive k -> d_dt s = t -> MJ t s -> MJ t (tsd_child_write t i v s).
+Proof.
+  intros PT T LV DT J.
+  destruct (tsd_child_write_spec t i v k s T LV DT PT) as [_ [_ [_ [_ [OTH AT]]]]].
+  intros j Q. destruct (Nat.eq_dec j i) as [E|E].
+  - subst j. destruct AT as [[_ [A1 _]]|[_ [A1 [A2 _]]]].
+    + rewrite A1. reflexivity.
+    + rewrite A1. cbn [c_lmt]. apply J. rewrite <- A2. exact Q.
+  - destruct (OTH j E) as [_ [O2 [_ O4]]]. rewrite O2 in Q. rewrite O4. apply J. exact Q.
 Qed.
 
 (* ------------------------------------------------------------------ the cycle *)
@@ -232,15 +285,44 @@ Section Cycle.
     apply (vi_transfer a t (d_touch_mark t s)); auto.
   Qed.
 
+  Lemma vc_write k v s : VC a t s -> VC a t (snd (tsd_write t k v s)).
+  Proof.
+    intros C. unfold tsd_write.
+    destruct (find_live (d_ks s) k) as [i|] eqn:F; cbn [snd]; [|exact C].
+    pose proof (find_live_some _ _ _ F) as LV. fold (dst s i) in LV.
+    assert (T : DInv s) by (destruct C as [[[T _] _]|[[T _] _]]; exact T).
+    destruct (Z.lt_ge_cases (c_lmt (child_at s i)) t) as [L|G].
+    - rewrite (tsd_child_write_prepare t i v k s T LV L).
+      destruct (vc_prepare s C) as [[T1 [D1 O1]] V1].
+      assert (LV1 : dst (d_prepare t s) i = mkSlot SLive k).
+      { destruct C as [[[_ [D _]] _]|[[_ [D _]] _]].
+        - destruct (d_prepare_roll t s T D) as [_ [_ [_ [_ S1]]]]. rewrite S1, LV. reflexivity.
+        - rewrite d_prepare_same by (auto; lia). exact LV. }
+      destruct (tsd_child_write_spec t i v k (d_prepare t s) T1 LV1 D1 PT) as [T2 [D2 [O2 _]]].
+      right. split.
+      + split; [exact T2|]. split; [exact D2|]. intros k'. rewrite O2. apply O1.
+      + apply (vi_child_write a t i v k (d_prepare t s) PT T1 LV1 D1 V1).
+    - destruct C as [[[_ [D _]] [FD [FL FP]]]|[[_ [D O]] V]].
+      + (* impossible: before the roll every child still carries a stamp of an earlier cycle *)
+        exfalso. destruct (FP i) as [F1 F2]. destruct CA as [_ C2].
+        assert (c_lmt (child_at a i) <= d_dt a); [|rewrite F2 in G; lia].
+        apply C2. rewrite <- F1, LV. reflexivity.
+      + destruct (tsd_child_write_again t i v k s T LV G) as [T2 [D2 [_ [O2 _]]]].
+        right. split.
+        * split; [exact T2|]. split; [lia|]. intros k'. rewrite O2. apply O.
+        * apply (vi_child_write a t i v k s PT T LV D V).
+  Qed.
+
   Lemma vc_op o s : VC a t s -> VC a t (snd (tsd_op t o s)).
   Proof.
-    intros C. destruct o as [k v|k| |c| |k|]; cbn [tsd_op snd].
+    intros C. destruct o as [k v|k| |c| |k|k v|]; cbn [tsd_op snd].
     - right. apply vc_set. exact C.
     - destruct (tsd_erase t k s) as [b s'] eqn:E. cbn [snd]. right. apply (vc_erase k s b s' C E).
     - right. apply vc_clear. exact C.
     - apply vc_reserve. exact C.
     - right. apply vc_touch. exact C.
     - destruct (tsd_at t k s) as [i s'] eqn:E. cbn [snd]. right. destruct (vc_at k s i s' C E) as [M [V _]]. auto.
+    - apply vc_write. exact C.
     - exact C.
   Qed.
 
@@ -248,6 +330,100 @@ Section Cycle.
   Proof.
     induction ops as [|o r IH]; intros s C; cbn [tsd_cycle fold_left]; auto.
     apply IH. apply vc_op. exact C.
+  Qed.
+
+  (* the same walk for the stale-mark invariant *)
+  Definition MJC (s : tsd) : Prop := d_dt s = t -> MJ t s.
+
+  Lemma mjc_prepare s : VC a t s -> MJC s -> MJ t (d_prepare t s).
+  Proof.
+    intros C J. destruct C as [[[T [D _]] _]|[[T [D _]] _]].
+    - apply mj_roll; auto.
+    - rewrite d_prepare_same by (auto; lia). apply J. exact D.
+  Qed.
+
+  Lemma mjc_touch_mark s : VC a t s -> MJC s -> MJ t (d_touch_mark t s).
+  Proof.
+    intros C J. pose proof (mjc_prepare s C J) as J1. unfold d_touch_mark, d_touch.
+    destruct (negb (d_lmt (d_prepare t s) =? t)); [apply mj_mark|]; exact J1.
+  Qed.
+
+  Lemma mjc_at k s i s' : VC a t s -> MJC s -> tsd_at t k s = (i, s') -> MJ t s'.
+  Proof.
+    intros C J A. destruct (vc_prepare s C) as [[T _] _]. pose proof (mjc_prepare s C J) as J1.
+    unfold tsd_at in A. rewrite d_insert_key_eq in A.
+    destruct (d_insert_core t k (d_prepare t s)) as [[j c] s1] eqn:IC.
+    pose proof (mj_insert t k _ j c s1 T J1 IC) as J2.
+    injection A as _ Hs. rewrite <- Hs. destruct c; [apply mj_mark|]; exact J2.
+  Qed.
+
+  Lemma mjc_erase k s c s' : VC a t s -> MJC s -> tsd_erase t k s = (c, s') -> MJ t s'.
+  Proof.
+    intros C J A. destruct (vc_prepare s C) as [[T [D O]] V]. pose proof (mjc_prepare s C J) as J1.
+    unfold tsd_erase in A. rewrite d_remove_key_eq in A.
+    destruct (d_remove_core t k (d_prepare t s)) as [c1 s1] eqn:RC.
+    pose proof (mj_remove t k _ c1 s1 T J1 RC) as J2.
+    destruct (d_remove_core_spec t k _ c1 s1 T RC) as [T1 [D1 [_ [O1 _]]]].
+    pose proof (vi_remove a t k _ c1 s1 T V RC) as V1.
+    assert (C1 : VC a t s1).
+    { right. split; [|exact V1]. split; [exact T1|]. split; [congruence|]. intros k'. rewrite O1. apply O. }
+    injection A as _ Hs. rewrite <- Hs. destruct c1; [apply mj_mark; exact J2|].
+    apply (mjc_touch_mark s1 C1). intros _. exact J2.
+  Qed.
+
+  Lemma mjc_op o s : VC a t s -> MJC s -> MJC (snd (tsd_op t o s)).
+  Proof.
+    intros C J DT'. destruct o as [k v|k| |c| |k|k v|]; cbn [tsd_op snd] in *.
+    - unfold tsd_set. destruct (tsd_at t k s) as [i s1] eqn:A.
+      destruct (vc_at k s i s1 C A) as [[T [D _]] [_ S]].
+      apply (mj_child_write t i v k s1 PT T S D). apply (mjc_at k s i s1 C J A).
+    - destruct (tsd_erase t k s) as [b s'] eqn:E. cbn [snd]. apply (mjc_erase k s b s' C J E).
+    - unfold tsd_clear, d_touch.
+      assert (F : forall keys s0, VC a t s0 -> MJC s0 -> d_dt s0 = t ->
+                  MJ t (fold_left (fun st k => snd (tsd_erase t k st)) keys s0) /\
+                  VC a t (fold_left (fun st k => snd (tsd_erase t k st)) keys s0) /\
+                  d_dt (fold_left (fun st k => snd (tsd_erase t k st)) keys s0) = t).
+      { induction keys as [|k r IH]; intros s0 C0 J0 D0; cbn [fold_left]; [auto|].
+        destruct (tsd_erase t k s0) as [c s1] eqn:E. cbn [snd].
+        destruct (vc_erase k s0 c s1 C0 E) as [M1 V1].
+        apply IH; [right; auto|intros _; apply (mjc_erase k s0 c s1 C0 J0 E)|apply M1]. }
+      destruct (vc_prepare s C) as [M V].
+      destruct (F (live_keys (d_ks s)) (d_prepare t s)) as [J2 _]; [right; auto|intros _; apply mjc_prepare; auto|apply M|].
+      destruct (negb (d_lmt (d_prepare t s) =? t)); [apply mj_mark|]; exact J2.
+    - assert (T : DInv s) by (destruct C as [[[T _] _]|[[T _] _]]; exact T).
+      destruct (tsd_reserve_pw c s T) as [RD [_ RP]].
+      destruct (vc_reserve c s C) as [[[_ [D _]] _]|[[_ [D _]] _]].
+      + exfalso. lia.
+      + apply (mj_transfer t s); [intros i; destruct (RP i) as [_ [R2 [_ R4]]]; auto|]. apply J. lia.
+    - pose proof (mjc_touch_mark s C J) as J1. unfold tsd_touch.
+      destruct (d_kslmt (d_touch_mark t s) =? MIN_DT); [|exact J1]. apply (mj_transfer t (d_touch_mark t s)); auto.
+    - destruct (tsd_at t k s) as [i s'] eqn:E. cbn [snd]. apply (mjc_at k s i s' C J E).
+    - unfold tsd_write in *. destruct (find_live (d_ks s) k) as [i|] eqn:F; cbn [snd] in *.
+      2:{ apply J. exact DT'. }
+      pose proof (find_live_some _ _ _ F) as LV. fold (dst s i) in LV.
+      assert (T : DInv s) by (destruct C as [[[T _] _]|[[T _] _]]; exact T).
+      destruct (Z.lt_ge_cases (c_lmt (child_at s i)) t) as [L|G].
+      + rewrite (tsd_child_write_prepare t i v k s T LV L).
+        destruct (vc_prepare s C) as [[T1 [D1 _]] _].
+        assert (LV1 : dst (d_prepare t s) i = mkSlot SLive k).
+        { destruct C as [[[_ [D _]] _]|[[_ [D _]] _]].
+          - destruct (d_prepare_roll t s T D) as [_ [_ [_ [_ S1]]]]. rewrite S1, LV. reflexivity.
+          - rewrite d_prepare_same by (auto; lia). exact LV. }
+        apply (mj_child_write t i v k (d_prepare t s) PT T1 LV1 D1). apply mjc_prepare; auto.
+      + destruct (tsd_child_write_again t i v k s T LV G) as [_ [D2 [_ [_ [_ [PW [CO CI]]]]]]].
+        assert (DT : d_dt s = t).
+        { destruct C as [[[_ [D _]] [_ [_ FP]]]|[[_ [D _]] _]]; [|exact D]. exfalso.
+          destruct (FP i) as [F1 F2]. destruct CA as [_ C2].
+          assert (c_lmt (child_at a i) <= d_dt a); [|rewrite F2 in G; lia]. apply C2. rewrite <- F1, LV. reflexivity. }
+        intros j Q. destruct (PW j) as [_ [P2 _]]. rewrite P2 in Q. pose proof (J DT j Q) as JQ.
+        destruct (Nat.eq_dec j i) as [E|E]; [subst j; rewrite CI; exact JQ|rewrite (CO j E); exact JQ].
+    - apply J. exact DT'.
+  Qed.
+
+  Lemma mjc_cycle ops : forall s, VC a t s -> MJC s -> MJC (tsd_cycle t ops s).
+  Proof.
+    induction ops as [|o r IH]; intros s C J; cbn [tsd_cycle fold_left]; auto.
+    apply IH; [apply vc_op; exact C|apply mjc_op; auto].
   Qed.
 End Cycle.
 
@@ -296,7 +472,8 @@ Proof. split; [reflexivity|]. split; [reflexivity|]. auto. Qed.
 
 Lemma vtrace_inv h : forall s t0 V0,
   DC V0 t0 s -> CLb s -> d_dt s <= t0 -> 0 <= t0 -> dincreasing t0 h ->
-  forall a t ops b, In (a, t, ops, b) (tsd_trace s h) -> 0 < t /\ DInv a /\ VC a t b.
+  forall a t ops b, In (a, t, ops, b) (tsd_trace s h) ->
+    0 < t /\ DInv a /\ VC a t b /\ CLb a /\ d_dt a < t /\ (d_dt b = t -> MJ t b).
 Proof.
   induction h as [|[t1 ops1] r IH]; intros s t0 V0 C CL DD P I a t ops b H; simpl in H; [contradiction|].
   destruct I as [I1 I2].
@@ -304,8 +481,10 @@ Proof.
   assert (VS : VC s t1 s) by (left; split; [exact F|apply vfresh_refl]).
   assert (PT1 : 0 < t1) by lia. assert (DA1 : d_dt s < t1) by lia.
   pose proof (@vc_cycle s t1 PT1 CL DA1) as VCY. pose proof (VCY ops1 s VS) as V1. clear VCY.
+  assert (J0 : MJC t1 s) by (intros Q; lia).
+  pose proof (@mjc_cycle s t1 PT1 CL DA1 ops1 s VS J0) as J1.
   destruct H as [H|H].
-  - inversion H; subst a t ops b. split; [lia|]. split; [apply F|exact V1].
+  - inversion H; subst a t ops b. split; [lia|]. split; [apply F|]. split; [exact V1|]. split; [exact CL|]. split; [exact DA1|exact J1].
   - assert (CL1 : CLb (tsd_cycle t1 ops1 s)) by (apply (clb_of_vc s t1); auto).
     assert (DD1 : d_dt (tsd_cycle t1 ops1 s) <= t1) by (destruct V1 as [[[_ [D _]] _]|[[_ [D _]] _]]; lia).
     assert (P1 : 0 <= t1) by lia.
@@ -322,7 +501,7 @@ Lemma tsd_value_step_l h : dincreasing MIN_DT h ->
   forall a t ops b, In (a, t, ops, b) (tsd_trace tsd_empty h) -> tsd_apply_delta_ok a t b.
 Proof.
   intros I a t ops b H.
-  destruct (vtrace_inv h tsd_empty MIN_DT _ dc_empty clb_empty ltac:(cbn; lia) ltac:(unfold MIN_DT; lia) I a t ops b H) as [PT [TA C]].
+  destruct (vtrace_inv h tsd_empty MIN_DT _ dc_empty clb_empty ltac:(cbn; lia) ltac:(unfold MIN_DT; lia) I a t ops b H) as [PT [TA [C _]]].
   pose proof (vc_dc _ _ _ C) as DCb. pose proof (dc_inv _ _ _ DCb) as TB.
   destruct (dc_char (inP a) t b PT DCb) as [_ [R _]].
   intros k NR NM.
@@ -353,4 +532,47 @@ Proof.
       destruct (KEEP v eq_refl) as [i [Q P]]. rewrite (tsd_get_some b k i TB Q) in GB.
       pose proof (di_bits b TB i) as B. rewrite Q in B. cbn in B. destruct B as [_ [_ [_ B]]].
       unfold dv in B. rewrite <- B, P in GB. discriminate.
+Qed.
+
+(* NO STALE MARKS: a key reported as modified in a cycle is a live key whose element carries THIS cycle's stamp,
+   i.e. it was written in this cycle (through the dictionary or through its own view).  Together with
+   [tsd_value_step_l] and the key theorems: the delta of a cycle is exactly the keys written / added / removed in it. *)
+Lemma tsd_modified_written_l h : dincreasing MIN_DT h ->
+  forall a t ops b, In (a, t, ops, b) (tsd_trace tsd_empty h) ->
+  forall k, In k (tsd_modified_keys t b) ->
+  exists i, dst b i = mkSlot SLive k /\ c_lmt (child_at b i) = t /\ tsd_get b k = Some (c_val (child_at b i)).
+Proof.
+  intros I a t ops b H k Hk.
+  destruct (vtrace_inv h tsd_empty MIN_DT _ dc_empty clb_empty ltac:(cbn; lia) ltac:(unfold MIN_DT; lia) I a t ops b H)
+    as [PT [TA [C [[CL1 _] [DA J]]]]].
+  pose proof (dc_inv _ _ _ (vc_dc _ _ _ C)) as TB.
+  unfold tsd_modified_keys in Hk. destruct (tsd_modified t b) eqn:M; [|contradiction].
+  unfold tsd_modified in M. apply andb_true_iff in M. destruct M as [_ M]. apply Z.eqb_eq in M.
+  assert (DT : d_dt b = t).
+  { destruct C as [[_ [_ [FL _]]]|[[_ [D _]] _]]; [lia|exact D]. }
+  apply tsd_raw_modified_in in Hk. destruct Hk as [i [Q QM]].
+  pose proof (J DT i QM) as ST.
+  exists i. split; [exact Q|]. split; [exact ST|].
+  rewrite (tsd_get_some b k i TB Q). unfold c_valid. rewrite ST.
+  destruct (Z.eqb_spec t MIN_DT) as [E|E]; [unfold MIN_DT in E; lia|reflexivity].
+Qed.
+
+(* and conversely: a live, valid key whose element carries this cycle's stamp is reported as modified *)
+Lemma tsd_written_modified_l h : dincreasing MIN_DT h ->
+  forall a t ops b, In (a, t, ops, b) (tsd_trace tsd_empty h) ->
+  forall i k, dst b i = mkSlot SLive k -> c_lmt (child_at b i) = t -> In k (tsd_modified_keys t b).
+Proof.
+  intros I a t ops b H i k Q ST.
+  destruct (vtrace_inv h tsd_empty MIN_DT _ dc_empty clb_empty ltac:(cbn; lia) ltac:(unfold MIN_DT; lia) I a t ops b H)
+    as [PT [TA [C [[_ CL2] [DA _]]]]].
+  pose proof (dc_inv _ _ _ (vc_dc _ _ _ C)) as TB.
+  destruct C as [[_ [_ [_ FP]]]|[_ [M V]]].
+  - exfalso. destruct (FP i) as [F1 F2]. assert (c_lmt (child_at a i) <= d_dt a); [|rewrite F2 in ST; lia].
+    apply CL2. rewrite <- F1, Q. reflexivity.
+  - destruct (V i k SLive Q ltac:(discriminate)) as [[_ [B2 B3]]|[B1 _]]; [|lia].
+    unfold tsd_modified_keys, tsd_modified. rewrite B2, Z.eqb_refl.
+    destruct (Z.eqb_spec t MIN_DT) as [E|E]; [unfold MIN_DT in E; lia|]. cbn [negb andb].
+    apply tsd_raw_modified_in. exists i. split; [exact Q|]. apply B3; [reflexivity|].
+    pose proof (di_bits b TB i) as B. rewrite Q in B. cbn in B. destruct B as [_ [_ [_ B]]]. rewrite B.
+    unfold dv, c_valid. rewrite ST. destruct (Z.eqb_spec t MIN_DT); [contradiction|reflexivity].
 Qed.
